@@ -16,7 +16,6 @@ type (
 	Node  = engine.Node
 )
 
-func fk(t, f string) engine.FieldKey { return engine.FieldKey{T: t, F: f} }
 
 // anchor resolves a first-party function; an unresolved anchor is an undecided
 // obligation (the rule can no longer see its subject), never a silent pass.
